@@ -31,7 +31,12 @@ use crate::{
 pub fn validate_jump_destination(counter: &RuntimeBoxedVal, vm: &mut VM) -> execution::Result<u32> {
     let instruction_pointer = vm.instruction_pointer()?;
     let jump_target = match counter.constant_fold().data() {
-        RSVD::KnownData { value, .. } => value.value_le().as_u32(),
+        RSVD::KnownData { value, .. } => {
+            // A target that does not fit in the instruction pointer cannot exist
+            u32::try_from(value.value_le()).map_err(|_| {
+                execution::Error::NonExistentJumpTarget { offset: u32::MAX }.locate(instruction_pointer)
+            })?
+        }
         _ => {
             return Err(execution::Error::NoConcreteJumpDestination.locate(instruction_pointer));
         }
